@@ -396,7 +396,7 @@ class TickerSpec(SeqSpec):
                     k = "0" if j == 0 else "1ns" if j == 1 else "d-1ns" if j == d - 1 else ">=2^62" if 2 * j > MAX_I64 else "other"
                     jc[k] = jc.get(k, 0) + 1
                 if c["res"] == "panic":
-                    k = "invalid-args" if not documented(d, j) else "documented-but-2*jitter>max_int64 (C20_ticker_no_panic_refuted)" if 2 * j > MAX_I64 else "documented"
+                    k = "invalid-args" if not documented(d, j) else "documented-but-2*jitter>max_int64" if 2 * j > MAX_I64 else "documented"
                     pc[k] = pc.get(k, 0) + 1
             elif c["op"] == "stop" and c["res"] == "panic":
                 pc["stop-with-nil-timer"] = pc.get("stop-with-nil-timer", 0) + 1
